@@ -448,11 +448,15 @@ Proof.
     + rewrite firstn_nil_of_nil. reflexivity.
     + destruct (push tin0 _). rewrite firstn_nil_of_nil. reflexivity.
   - destruct (phase_eqb (dir1 s) Running && is_nil (rbuf s) && is_nil (c2t_src s) && negb (c_wr_open s)) eqn:G;
-      [|reflexivity]. bools. destruct (Q1 H) as (_ & _ & X). congruence.
+      [|reflexivity]. bools. destruct (Q1 H) as (_ & _ & X & _). congruence.
   - destruct (phase_eqb (dir2 s) Running) eqn:G; [|reflexivity]. bools.
     destruct (Q2 G) as (X & _). rewrite X. rewrite firstn_nil_of_nil. reflexivity.
   - destruct (phase_eqb (dir2 s) Running && is_nil (t2c_src s) && negb (t_wr_open s)) eqn:G; [|reflexivity].
-    bools. destruct (Q2 H) as (_ & X). congruence.
+    bools. destruct (Q2 H) as (_ & X & _). congruence.
+  - destruct (phase_eqb (dir1 s) Running) eqn:G; [|reflexivity]. apply phase_eqb_iff in G.
+    destruct (Q1 G) as (X1 & X2 & _ & X4). rewrite X1, X2, X4. simpl. rewrite andb_false_r. reflexivity.
+  - destruct (phase_eqb (dir2 s) Running) eqn:G; [|reflexivity]. apply phase_eqb_iff in G.
+    destruct (Q2 G) as (X1 & _ & X3). rewrite X1, X3. simpl. rewrite andb_false_r. reflexivity.
   - destruct (phase_eqb (dir1 s) Done && phase_eqb (dir2 s) Done && negb (closed s)) eqn:G; [|reflexivity].
     bools. rewrite (Q3 H H1) in H0. discriminate.
 Qed.
@@ -497,6 +501,14 @@ Proof.
     destruct (phase_eqb (dir2 s) Running && is_nil (t2c_src s) && negb (t_wr_open s)) eqn:G; [|discriminate].
     bools. inversion HS; subst; unfold measure; simpl. rewrite H, H1. simpl. lia.
   - unfold step in HS.
+    destruct (phase_eqb (dir1 s) Running) eqn:G; [|discriminate]. simpl in HS.
+    destruct (c_abort s || t_abort s && negb (is_nil (rbuf s) && is_nil (c2t_src s))); [|discriminate].
+    destruct (eos_prop c); inversion HS; subst; unfold measure; simpl; rewrite G; simpl; lia.
+  - unfold step in HS.
+    destruct (phase_eqb (dir2 s) Running) eqn:G; [|discriminate]. simpl in HS.
+    destruct (t_abort s || c_abort s && negb (is_nil (t2c_src s))); [|discriminate].
+    inversion HS; subst; unfold measure; simpl; rewrite G; simpl; lia.
+  - unfold step in HS.
     destruct (phase_eqb (dir1 s) Done && phase_eqb (dir2 s) Done && negb (closed s)) eqn:G; [|discriminate].
     bools. inversion HS; subst; unfold measure; simpl. rewrite H, H1, H0. simpl. lia.
 Qed.
@@ -520,12 +532,14 @@ Proof.
 Qed.
 
 Lemma internal_no_env tr : Forall (fun l => internal l = true) tr ->
-  client_bytes tr = [] /\ target_bytes tr = [] /\ client_shut tr = false /\ target_shut tr = false.
+  client_bytes tr = [] /\ target_bytes tr = [] /\ client_shut tr = false /\ target_shut tr = false
+  /\ client_aborted tr = false /\ target_aborted tr = false.
 Proof.
-  induction 1 as [|l tr IL F IH]; [simpl; auto|].
-  destruct IH as (A & B & C & D).
-  rewrite client_bytes_cons, target_bytes_cons, client_shut_cons, target_shut_cons, A, B, C, D.
-  destruct l; try discriminate; simpl; auto.
+  induction 1 as [|l tr IL F IH]; [simpl; auto 10|].
+  destruct IH as (A & B & C & D & E & G).
+  rewrite client_bytes_cons, target_bytes_cons, client_shut_cons, target_shut_cons,
+          client_aborted_cons, target_aborted_cons, A, B, C, D, E, G.
+  destruct l; try discriminate; simpl; auto 10.
 Qed.
 
 (* ------------------------------------------------------------------ *)
@@ -541,26 +555,37 @@ Proof. intro R. apply (i_t2c c s (inv_reachable _ _ _ _ _ R)). Qed.
 
 Lemma sent_is_written c e p tr s : reachable c e p tr s ->
   c_sent s = e ++ client_bytes tr /\ t_sent s = p ++ target_bytes tr /\
-  c_wr_open s = negb (client_shut tr) /\ t_wr_open s = negb (target_shut tr).
+  c_wr_open s = negb (client_shut tr) /\ t_wr_open s = negb (target_shut tr) /\
+  c_abort s = client_aborted tr /\ t_abort s = target_aborted tr.
 Proof. intro R. apply ghost_run in R. simpl in R. exact R. Qed.
 
+(* End of stream is shown to an end only after its peer shut (or the end itself
+   aborted), and, when nobody aborted, after all of the peer's bytes. *)
 Lemma no_premature_eos_inv c s : Inv c s ->
-  (t_eos s = true -> c_wr_open s = false /\ t_in s = c_sent s) /\
-  (c_eos s = true -> t_wr_open s = false /\ c_in s = t_sent s).
+  (t_eos s = true -> (c_wr_open s = false \/ t_abort s = true) /\
+                     (c_abort s = false -> t_abort s = false -> t_in s = c_sent s)) /\
+  (c_eos s = true -> (t_wr_open s = false \/ c_abort s = true) /\
+                     (c_abort s = false -> t_abort s = false -> c_in s = t_sent s)).
 Proof.
   intro I. open_inv I. split; intro E.
-  - destruct (Ite E) as (D & W). destruct (Id1 D) as (O & RB & SRC).
-    split; [exact O|]. rewrite <- Ic2t. rewrite W, RB, SRC. repeat rewrite app_nil_r. reflexivity.
-  - pose proof (Ice E) as D. destruct (Id2 D) as (O & SRC).
-    split; [exact O|]. rewrite <- It2c. rewrite SRC. rewrite app_nil_r. reflexivity.
+  - destruct (Ite E) as (D & W). split; [exact (Id1w D)|]. intros A B.
+    destruct (Id1 D A B) as (O & RB & SRC).
+    rewrite <- Ic2t. rewrite W, RB, SRC. repeat rewrite app_nil_r. reflexivity.
+  - pose proof (Ice E) as D. split; [exact (Id2w D)|]. intros A B.
+    destruct (Id2 D A B) as (O & SRC).
+    rewrite <- It2c. rewrite SRC. rewrite app_nil_r. reflexivity.
 Qed.
 
 Lemma released_only_when_done_inv c s : Inv c s -> closed s = true ->
-  c_wr_open s = false /\ t_wr_open s = false /\ t_in s = c_sent s /\ c_in s = t_sent s.
+  (c_wr_open s = false \/ t_abort s = true) /\ (t_wr_open s = false \/ c_abort s = true) /\
+  (c_abort s = false -> t_abort s = false ->
+   c_wr_open s = false /\ t_wr_open s = false /\ t_in s = c_sent s /\ c_in s = t_sent s).
 Proof.
   intros I CL. pose proof (no_premature_eos_inv c s I) as (A & B).
   destruct (i_cl c s I CL) as (_ & _ & TE & CE).
-  destruct (A TE), (B CE). auto.
+  destruct (A TE) as (A1 & A2), (B CE) as (B1 & B2).
+  split; [exact A1|]. split; [exact B1|]. intros NA NB.
+  destruct A1 as [A1|A1]; [|congruence]. destruct B1 as [B1|B1]; [|congruence]. auto.
 Qed.
 
 (* ------------------------------------------------------------------ *)
@@ -568,54 +593,76 @@ Qed.
 (* ------------------------------------------------------------------ *)
 
 Lemma quiescent_drained c s : Inv c s -> quiescentb s = true ->
+  c_abort s = false -> t_abort s = false ->
   rbuf s = [] /\ c2t_src s = [] /\ t2c_src s = [].
 Proof.
-  intros I Q. apply quiescentb_facts in Q. destruct Q as (Q1 & Q2 & _). open_inv I.
+  intros I Q NA NB. apply quiescentb_facts in Q. destruct Q as (Q1 & Q2 & _). open_inv I.
   destruct (phase_cases (dir1 s)) as [D1|D1], (phase_cases (dir2 s)) as [D2|D2];
-    try (destruct (Q1 D1) as (? & ? & ?)); try (destruct (Q2 D2) as (? & ?));
-    try (destruct (Id1 D1) as (? & ? & ?)); try (destruct (Id2 D2) as (? & ?)); auto.
+    try (destruct (Q1 D1) as (? & ? & ? & ?)); try (destruct (Q2 D2) as (? & ? & ?));
+    try (destruct (Id1 D1 NA NB) as (? & ? & ?)); try (destruct (Id2 D2 NA NB) as (? & ?)); auto.
 Qed.
 
 Lemma delivery_quiescent_inv c s : Inv c s -> quiescentb s = true -> wbuf s = [] ->
+  c_abort s = false -> t_abort s = false ->
   t_in s = c_sent s /\ c_in s = t_sent s.
 Proof.
-  intros I Q W. destruct (quiescent_drained c s I Q) as (A & B & C).
+  intros I Q W NA NB. destruct (quiescent_drained c s I Q NA NB) as (A & B & C).
   split.
   - rewrite <- (i_c2t c s I). rewrite W, A, B. repeat rewrite app_nil_r. reflexivity.
   - rewrite <- (i_t2c c s I). rewrite C. rewrite app_nil_r. reflexivity.
 Qed.
 
+Lemma quiescent_done s : quiescentb s = true ->
+  (c_wr_open s = false -> dir1 s = Done) /\ (t_wr_open s = false -> dir2 s = Done).
+Proof.
+  intro Q. pose proof (quiescentb_facts s Q) as (Q1 & Q2 & _). split; intro O.
+  - destruct (phase_cases (dir1 s)) as [D|D]; [|exact D]. destruct (Q1 D) as (_ & _ & X & _). congruence.
+  - destruct (phase_cases (dir2 s)) as [D|D]; [|exact D]. destruct (Q2 D) as (_ & X & _). congruence.
+Qed.
+
+(* An end that shut OR ABORTED: its peer has been shown end-of-stream (when
+   nobody aborted: after all the bytes); both ends done: released. *)
 Lemma eos_quiescent_inv c s : eos_prop c = true -> Inv c s -> quiescentb s = true ->
-  (c_wr_open s = false -> t_eos s = true /\ t_in s = c_sent s) /\
-  (t_wr_open s = false -> c_eos s = true /\ c_in s = t_sent s) /\
+  (c_wr_open s = false ->
+     t_eos s = true /\ (c_abort s = false -> t_abort s = false -> t_in s = c_sent s)) /\
+  (t_wr_open s = false ->
+     c_eos s = true /\ (c_abort s = false -> t_abort s = false -> c_in s = t_sent s)) /\
   (c_wr_open s = false -> t_wr_open s = false -> closed s = true).
 Proof.
-  intros EP I Q. pose proof (quiescentb_facts s Q) as (Q1 & Q2 & Q3).
+  intros EP I Q. pose proof (quiescentb_facts s Q) as (_ & _ & Q3).
+  pose proof (quiescent_done s Q) as (D1 & D2).
   pose proof (no_premature_eos_inv c s I) as (PA & PB).
-  assert (D1 : c_wr_open s = false -> dir1 s = Done).
-  { intro O. destruct (phase_cases (dir1 s)) as [D|D]; [|exact D].
-    destruct (Q1 D) as (_ & _ & X). congruence. }
-  assert (D2 : t_wr_open s = false -> dir2 s = Done).
-  { intro O. destruct (phase_cases (dir2 s)) as [D|D]; [|exact D].
-    destruct (Q2 D) as (_ & X). congruence. }
   split; [|split].
   - intro O. destruct (i_d1e c s I (D1 O) EP) as (TE & _). split; [exact TE|]. apply PA; exact TE.
   - intro O. pose proof (i_d2e c s I (D2 O) EP) as CE. split; [exact CE|]. apply PB; exact CE.
   - intros O1 O2. apply Q3; auto.
 Qed.
 
+(* abortive closes in particular *)
+Lemma abort_quiescent_inv c s : eos_prop c = true -> Inv c s -> quiescentb s = true ->
+  (c_abort s = true -> t_eos s = true) /\ (t_abort s = true -> c_eos s = true) /\
+  ((c_wr_open s = false \/ c_abort s = true) -> (t_wr_open s = false \/ t_abort s = true) ->
+   closed s = true).
+Proof.
+  intros EP I Q. destruct (eos_quiescent_inv c s EP I Q) as (E1 & E2 & E3).
+  split; [|split].
+  - intro A. apply E1. apply (i_ca c s I A).
+  - intro A. apply E2. apply (i_ta c s I A).
+  - intros [O1|O1] [O2|O2]; apply E3; auto; try (apply (i_ca c s I O1)); try (apply (i_ta c s I O2)).
+Qed.
+
 (* without the repairs: end of stream reaches the other end only once BOTH ends have shut *)
 Lemma eos_quiescent_weak_inv c s : Inv c s -> quiescentb s = true ->
   c_wr_open s = false -> t_wr_open s = false ->
-  closed s = true /\ t_eos s = true /\ c_eos s = true /\ t_in s = c_sent s /\ c_in s = t_sent s.
+  closed s = true /\ t_eos s = true /\ c_eos s = true /\
+  (c_abort s = false -> t_abort s = false -> t_in s = c_sent s /\ c_in s = t_sent s).
 Proof.
-  intros I Q O1 O2. pose proof (quiescentb_facts s Q) as (Q1 & Q2 & Q3).
-  assert (D1 : dir1 s = Done).
-  { destruct (phase_cases (dir1 s)) as [D|D]; [|exact D]. destruct (Q1 D) as (_ & _ & X). congruence. }
-  assert (D2 : dir2 s = Done).
-  { destruct (phase_cases (dir2 s)) as [D|D]; [|exact D]. destruct (Q2 D) as (_ & X). congruence. }
-  pose proof (Q3 D1 D2) as CL. destruct (i_cl c s I CL) as (_ & _ & TE & CE).
-  destruct (released_only_when_done_inv c s I CL) as (_ & _ & A & B). auto.
+  intros I Q O1 O2. pose proof (quiescentb_facts s Q) as (_ & _ & Q3).
+  pose proof (quiescent_done s Q) as (D1 & D2).
+  pose proof (Q3 (D1 O1) (D2 O2)) as CL. destruct (i_cl c s I CL) as (_ & _ & TE & CE).
+  destruct (released_only_when_done_inv c s I CL) as (_ & _ & A).
+  split; [exact CL|]. split; [exact TE|]. split; [exact CE|]. intros NA NB.
+  destruct (A NA NB) as (_ & _ & X & Y). auto.
 Qed.
 
 (* the buffer stays empty when nothing arrived with the CONNECT head *)
@@ -627,6 +674,8 @@ Proof.
   - destruct (t_wr_open s); [|discriminate]. inversion HS; subst; simpl; auto.
   - destruct (c_wr_open s); [|discriminate]. inversion HS; subst; simpl; auto.
   - destruct (t_wr_open s); [|discriminate]. inversion HS; subst; simpl; auto.
+  - destruct (c_abort s); [discriminate|]. inversion HS; subst; simpl; auto.
+  - destruct (t_abort s); [discriminate|]. inversion HS; subst; simpl; auto.
   - rewrite RB in HS. simpl in HS. rewrite andb_false_r in HS. discriminate.
   - destruct (phase_eqb (dir1 s) Running && is_nil (rbuf s)); [|discriminate].
     rewrite W in HS. unfold push in HS at 1. simpl length in HS.
@@ -640,6 +689,11 @@ Proof.
     destruct (is_nil (firstn n (t2c_src s))); [discriminate|]. inversion HS; subst; simpl; auto.
   - destruct (phase_eqb (dir2 s) Running && is_nil (t2c_src s) && negb (t_wr_open s)); [|discriminate].
     inversion HS; subst; simpl; auto.
+  - destruct (phase_eqb (dir1 s) Running
+              && (c_abort s || t_abort s && negb (is_nil (rbuf s) && is_nil (c2t_src s)))); [|discriminate].
+    destruct (eos_prop c); inversion HS; subst; simpl; auto.
+  - destruct (phase_eqb (dir2 s) Running && (t_abort s || c_abort s && negb (is_nil (t2c_src s))));
+      [|discriminate]. inversion HS; subst; simpl; auto.
   - destruct (phase_eqb (dir1 s) Done && phase_eqb (dir2 s) Done && negb (closed s)); [|discriminate].
     inversion HS; subst; simpl; auto.
 Qed.
